@@ -24,6 +24,7 @@ type RecordCase struct {
 	Pos    int            `json:"pos"`
 	Muts   []Mut          `json:"muts,omitempty"`
 	Raw    []byte         `json:"raw,omitempty"`
+	Watch  bool           `json:"watch,omitempty"` // corrupt under a loaded Project and reload it twice (watch mode) instead of loading afresh
 }
 
 var foreignPickles = [][]byte{[]byte("N."), []byte("K\x01."), []byte("]\x94."), []byte("}\x94."), []byte("\x8c\x01a."), []byte(")."), []byte("]\x94(K\x01K\x02e."),
@@ -132,16 +133,31 @@ func execRecord(c RecordCase) (v ev.Verdict) {
 		out = []byte(alts[c.Pos%len(alts)])
 		v.Classes = append(v.Classes, "json-confusion")
 	}
-	if err := os.WriteFile(rp, out, 0o644); err != nil {
-		return ev.Verdict{Skip: "write"}
-	}
 	var js any
 	if json.Unmarshal(out, &js) == nil {
 		v.NonTrivial = true
 	}
 	where := fmt.Sprintf("record of %s corrupted (%s)", label, v.Classes[len(v.Classes)-1])
-	// in a child process: a panic on a runner goroutine would otherwise take the harness down
-	res := sim.ChildBuild(projsim.BuildReq{Label: m.Label(top)})
+	var res projsim.BuildResult
+	if c.Watch {
+		// watch mode: the project is loaded while the record is still intact; the record is corrupted,
+		// the same Project is reloaded twice (two file events) and, if the reload succeeds, built
+		v.Classes = append(v.Classes, "watch-session")
+		where += " under a loaded project that is then reloaded twice"
+		res = sim.ChildBuild(projsim.BuildReq{Label: m.Label(top), NoRun: true, Steps: []projsim.Step{
+			{Kind: "write", Path: ".dawn/build/" + rel, Data: out}, {Kind: "reload"}, {Kind: "reload"}, {Kind: "run"}}})
+		for _, sr := range res.Steps {
+			if sr.Err != "" && res.RunErr == "" {
+				res.RunErr = sr.Err
+			}
+		}
+	} else {
+		if err := os.WriteFile(rp, out, 0o644); err != nil {
+			return ev.Verdict{Skip: "write"}
+		}
+		// in a child process: a panic on a runner goroutine would otherwise take the harness down
+		res = sim.ChildBuild(projsim.BuildReq{Label: m.Label(top)})
+	}
 	if res.ExitCode != 0 {
 		se := res.Stderr
 		if len(se) > 300 {
@@ -182,7 +198,7 @@ func execRecord(c RecordCase) (v ev.Verdict) {
 }
 
 func genRecord(t *rapid.T) RecordCase {
-	c := RecordCase{M: projsim.GenModel(t, 5, false), T: rapid.IntRange(0, 7).Draw(t, "t"), Mode: rapid.SampledFrom([]int{2, 0, 1, 3, 4, 5, 2, 2}).Draw(t, "mode"),
+	c := RecordCase{Watch: rapid.IntRange(0, 3).Draw(t, "watch") == 3, M: projsim.GenModel(t, 5, false), T: rapid.IntRange(0, 7).Draw(t, "t"), Mode: rapid.SampledFrom([]int{2, 0, 1, 3, 4, 5, 2, 2}).Draw(t, "mode"),
 		Pos: rapid.IntRange(0, 4095).Draw(t, "pos"), Source: rapid.IntRange(0, 5).Draw(t, "source") == 5}
 	n := rapid.IntRange(0, 4).Draw(t, "nmut")
 	for i := 0; i < n; i++ {
